@@ -44,6 +44,12 @@ class CallMixin(object):
                     return mk_bool(z3.And(r.t != null, z3.Not(z3.Select(old_alloc, r.t)), self.allocated(st, r.t)))
             if n in ('all', 'any') and node.args and isinstance(node.args[0], ast.GeneratorExp):
                 raise OutsideSubset('all/any over a generator in code')
+        if (isinstance(f, ast.Name) and f.id == 'dict' and len(node.args) == 1 and isinstance(node.args[0], ast.GeneratorExp)
+                and not node.keywords and not self.spec_mode):
+            # dict(<generator>): over-approximated by an arbitrary well-formed dictionary (sound: nothing is assumed about it)
+            m = fresh(MapT(VAL, VAL), 'dict_of_generator')
+            self.assume_map_wf(st, m)
+            return m
         fv = self.ev(f, st)
         args = []
         for a in node.args:
@@ -126,6 +132,13 @@ class CallMixin(object):
                     raise OutsideSubset('call to %s: no contract' % n[5:])
                 return self.call_contract(ct, args, kwargs, st)
             return self.call_specfn(n, args, kwargs, st)
+        if isinstance(fv, BoundMethod) and isinstance(fv.recv, PyDict):
+            d = fv.recv.items
+            if fv.name == 'keys':
+                return PyTuple([mk_str(k) for k in d])
+            if fv.name == 'values':
+                return PyTuple(list(d.values()))
+            return PyTuple([PyTuple([mk_str(k), v]) for k, v in d.items()])
         if isinstance(fv, PyNav):
             return self.finish_nav(fv, args, st)
         if isinstance(fv, BoundMethod) and isinstance(fv.recv, PyNav) and fv.name == 'nav':
@@ -159,6 +172,19 @@ class CallMixin(object):
                     self.raise_if(st, recv.t == null, 'AttributeError', 'method call on None')
                 return self.call_contract(ct, [recv] + args, kwargs, st)
             return self.call_lib_method(recv, fv.name, args, kwargs, st, node)
+        if isinstance(fv, SV) and is_ref(fv.sort) and fv.sort.cls == 'type' and not args and not kwargs and not self.spec_mode:
+            # calling a class object held in a field (MetaClass.clazz, built by type(kind, (Class,), dict(__metaclass__=mc))):
+            # a new instance with an empty instance dictionary whose class attribute __metaclass__ is the ghost type.metaclass
+            key = self.reg.field_key('type', 'metaclass')
+            if key is None:
+                raise OutsideSubset('call of a class object without the ghost field type.metaclass')
+            self.raise_if(st, fv.t == null, 'TypeError', 'call of None')
+            obj = self.allocate(st, 'Class')
+            self.heap_set(st, self.reg.field_key('Class', '__metaclass__'), obj.t, self.heap_get(st, key, fv.t))
+            dk = self.reg.field_key('Class', '__dict__')
+            if dk is not None:
+                self.heap_set(st, dk, obj.t, empty_map(self.reg.fields[dk]))
+            return obj
         raise OutsideSubset('call of %s' % type(fv).__name__)
 
     def call_specfn(self, name, args, kwargs, st):
@@ -719,7 +745,16 @@ class CallMixin(object):
     bi_frozenset = bi_set
 
     def bi_range(self, args, kwargs, st, node):
-        raise OutsideSubset('range outside a quantifier')
+        if len(args) not in (1, 2):
+            raise OutsideSubset('range with a step')
+        lo = mk_int(0).t if len(args) == 1 else coerce(args[0], INT).t
+        hi = coerce(args[-1], INT).t
+        r = fresh(SeqT(INT), 'range')
+        n = z3.If(hi > lo, hi - lo, 0)
+        i = z3.Int(fresh_name('gi'))
+        st.assume(z3.Length(r.t) == n)
+        st.assume(z3.ForAll([i], z3.Implies(z3.And(0 <= i, i < n), nth(r.t, i) == lo + i)))
+        return r
 
     def bi_iter(self, args, kwargs, st, node):
         return self.as_seq(args[0], st)
@@ -754,6 +789,8 @@ class CallMixin(object):
     def bi_zip(self, args, kwargs, st, node):
         if len(args) != 2:
             raise OutsideSubset('zip arity')
+        if any(isinstance(x, PyTuple) and not x.items for x in args):
+            return PyTuple(())                          # zip with an empty literal tuple: nothing to iterate
         a, b = self.as_seq(args[0], st), self.as_seq(args[1], st)
         ts = TupT(a.sort.elem, b.sort.elem)
         r = fresh(SeqT(ts), 'zip')
